@@ -24,7 +24,8 @@ static void one_buffer(int ii, uint8_t *p, int len, const char *place)
 	memset(p, 0, len);
 	int r = -12345;
 	if (V_TRY()) {
-		r = f(p, len);
+		v_pcall_mode = 1 + (len & 1);
+		r = (int)PCALL(f, p, len);
 		V_END();
 		v_eval();
 		if (r != 0) {
@@ -40,7 +41,7 @@ static void one_buffer(int ii, uint8_t *p, int len, const char *place)
 				p[pos] = v;
 				v_fault_armed = 1;
 				if (sigsetjmp(v_fault_jmp, 1) == 0)
-					r = f(p, len);
+					r = (int)PCALL(f, p, len);
 				else {
 					snprintf(key, sizeof key, "%s fault len=%d %s", impl[ii].name, len, place);
 					v_violation(key, "fault at %s addr=%p (%s) pos=%d", v_sym(v_fault_rip), (void *)v_fault_addr, v_fault_write ? "write" : "read", pos);
@@ -77,7 +78,7 @@ static void one_buffer(int ii, uint8_t *p, int len, const char *place)
 					}
 					v_fault_armed = 1;
 					if (sigsetjmp(v_fault_jmp, 1) == 0)
-						r = f(p, len);
+						r = (int)PCALL(f, p, len);
 					else {
 						snprintf(key, sizeof key, "%s fault dense len=%d %s", impl[ii].name, len, place);
 						v_violation(key, "fault at %s addr=%p (%s): region = %s of %02x bytes, member %d (%s)", v_sym(v_fault_rip), (void *)v_fault_addr, v_fault_write ? "write" : "read",
